@@ -20,6 +20,7 @@ LEVEL_NOTE = ("Not decided: validity and escaping of the JSON text (serde_json's
 LEVEL_TEXT += (" Attribute names (the keys of every `attrs` object) are serialised as their own text; the fields of the private serialisation wrappers are resolved through their construction sites, so the wrappers' shape is free.")
 
 LEVEL_TEXT += (" (C14.S) in the list-member loops of Display / Debug for Value the separator is decided by position only; a variant's JSON payload entry is the payload itself, not a value computed from it.")
+LEVEL_TEXT += (' Display and Serialize of Attributes read the field `values` only (no memo or side table).')
 VALUE = "tsg::graph::Value"
 
 
@@ -127,6 +128,7 @@ def run(prog, rep):
         return text
 
     ITEM = r"\(Iterator::next\(.*\) as Some\)\.0"
+    COUNTER = r"phi\((?:\(rec AddWithOverflow 1_usize\)\.0 \| 0_usize|0_usize \| \(rec AddWithOverflow 1_usize\)\.0)\)"
     f = sers.get("tsg::graph::SerializeGraphNode")
     if f is None:
         rep.violation("E8.j", "anchor-lost:SerializeGraphNode", "", "not found")
@@ -138,6 +140,13 @@ def run(prog, rep):
                 ('"edges"', r"^graph::SerializeGraphNodeEdges::SerializeGraphNodeEdges\{&\**(SmallVec::as_slice\(&\**)?<&?\*?" + ITEM + r"\.1>\.outgoing_edges\)?\}$", ""),
                 ('"attrs"', r"^\**<&?\*?" + ITEM + r"\.1>\.attributes$", "")]
         ok = len(rs) == 3 and all(rs[i][0] == want[i][0] and re.match(want[i][1], rs[i][1]) and want[i][2] in rs[i][1] for i in range(3))
+        if not ok:
+            # the index-driven form: `while i < graph_nodes.len() { SerializeGraphNode(i, &graph_nodes[i]) ; i += 1 }`
+            NODE = r"Index::index\(&\*arg:self\.graph_nodes, " + COUNTER + r"\)"
+            want2 = [('"id"', r"^\**<" + COUNTER + r">$"),
+                     ('"edges"', r"^graph::SerializeGraphNodeEdges::SerializeGraphNodeEdges\{&\**(SmallVec::as_slice\(&\**)?<&?\*?" + NODE + r">\.outgoing_edges\)?\}$"),
+                     ('"attrs"', r"^\**<&?\*?" + NODE + r">\.attributes$")]
+            ok = len(rs) == 3 and all(rs[i][0] == want2[i][0] and re.match(want2[i][1], rs[i][1]) for i in range(3))
         rep.check(ok, "E8.j", "node object", f.loc(), "{id: index, edges: outgoing_edges, attrs: attributes}", "a graph node is serialised as %s" % [(k, v[-90:]) for k, v in rs])
     f = sers.get("tsg::graph::SerializeGraphNodeEdge")
     if f is None:
@@ -163,7 +172,25 @@ def run(prog, rep):
         nexts = [(b, t) for b, t in body.calls() if is_callee(t, r"Iterator::next$|Iterator>::next$")]
         ok = len(nexts) == 1
         detail = ""
-        if ok:
+        indexed = False
+        if not nexts and ty == "tsg::graph::Graph":
+            # index-driven: a counter from 0, +1 on every cycle, until graph_nodes.len(); one element per cycle
+            from ..engines.e1_div import _counted_loop
+            for h, bl in natural_loops(body):
+                msg = _counted_loop(f, body, tr, h, bl)
+                calls = [b for b, t in body.calls() if is_callee(t, elem_pat)]
+                if msg and msg.endswith("reaches Vec::len(&*arg:self.graph_nodes)"):
+                    ok2, m2 = once_per_iteration(body, h, bl, calls)
+                    el = [strip(tr.operand(body.term(c)["args"][1])) for c in calls]
+                    shape = bool(el) and el[0][0] == "agg" and (el[0][2] or "").endswith("SerializeGraphNode") and len(el[0][5]) == 2 and \
+                        re.match("^" + COUNTER + "$", canon(strip(el[0][5][0]))) is not None and \
+                        re.match(r"^&?\*?Index::index\(&\*arg:self\.graph_nodes, " + COUNTER + r"\)$", canon(strip(el[0][5][1]))) is not None
+                    ok = ok2 and shape
+                    indexed = True
+                    detail = "arg:self.graph_nodes / index 0.. " + m2
+        if indexed:
+            pass
+        elif ok:
             nb, nt = nexts[0]
             src = canon(tr.operand(nt["args"][0]))
             m = re.match(r"^&IntoIterator::into_iter\(&?\*?(.*)\)$", src) or re.match(r"^&(?:HashMap|hash_map::HashMap)::iter\(&?\*?(.*)\)$", src) or \
@@ -195,7 +222,7 @@ def run(prog, rep):
                 rep.check(okh, "E8.j", "%s :: length hint" % ty.rsplit("::", 1)[-1], f.loc(), "announces len() of the iterated container",
                           "the announced length %s is not the length of the iterated container %s: a length-prefixed or length-checking serializer emits a truncated / rejected sequence" % (hc, detail))
         rep.check(ok, "E8.j", "%s :: sequence" % ty.rsplit("::", 1)[-1], f.loc(), what, "%s is not serialised as a complete forward iteration (%s)" % (ty.rsplit("::", 1)[-1], detail))
-        if ty == "tsg::graph::Graph":
+        if ty == "tsg::graph::Graph" and not indexed:
             el = [(b, t) for b, t in body.calls() if is_callee(t, elem_pat)]
             if el:
                 v = strip(tr.operand(el[0][1]["args"][1]))
@@ -310,6 +337,32 @@ def run(prog, rep):
         body, tr = f.body, Tracer(f.body)
         dbg = [(b, t) for b, t in body.calls() if is_callee(t, r"fmt::rt::Argument::<'_>::new_debug$") and "HashMap" in canon(tr.operand(t["args"][0])) or (is_callee(t, r"fmt::rt::Argument::<'_>::new_debug$") and "Index::index" in canon(tr.operand(t["args"][0])))]
         rep.check(len(dbg) == 1, "C14.P", "Attributes Display :: value with Debug", f.loc(), "`name: {:?}` (typed rendering: strings quoted)", "attribute values are not printed with Debug")
+        # what is printed is a function of the attribute map as it is now: the Display (and Serialize) impl reads `values` only
+        for g0, what in ((f, "Display"), (sers.get("tsg::graph::Attributes"), "Serialize")):
+            if g0 is None:
+                continue
+            read = set()
+            for g in [g0] + prog.all_closures_under(g0):
+                gtr = Tracer(g.body)
+                for bb in sorted(g.body.reachable()):
+                    ops = []
+                    for st in g.body.blocks[bb]["stmts"]:
+                        if st["k"] == "assign":
+                            rv = st["rv"]
+                            if rv.get("p"):
+                                ops.append(rv["p"])
+                            for o in ([rv.get("op")] if rv.get("op") else []) + list(rv.get("ops") or []):
+                                if isinstance(o, dict) and o.get("k") in ("copy", "move"):
+                                    ops.append(o["p"])
+                    tt = g.body.term(bb)
+                    if tt["k"] == "call":
+                        ops += [a["p"] for a in tt["args"] if a.get("k") in ("copy", "move")]
+                    for pl in ops:
+                        for x in pl.get("p", []):
+                            if x["k"] == "field" and x.get("adt") == "tsg::graph::Attributes":
+                                read.add(x.get("name"))
+            rep.check(read == {"values"}, "C14.P", "Attributes %s :: reads the map itself" % what, g0.loc(), "only `values` is read",
+                      "%s for Attributes reads %s: the output can come from state other than the current attribute map (a memo or a second table that `add` does not maintain)" % (what, sorted(read)))
     rep.rule("E4", "hash order does not reach the pretty-printed text")
     e4.run_e4(prog, rep, file_filter=lambda f: f.file == "src/graph.rs")
     # ---- display_json
